@@ -131,7 +131,11 @@ func registerCLI(e *Engine) {
 			panic(abort("cobra: no sub-command " + want))
 		}
 		// every bound flag variable := arbitrary value named after its flag
+		fix := m.job.Params["fixflags"] == "encrypt-file-mode"
 		for _, b := range m.cli().bindings {
+			if fix && b.name != "encryptionKeyFile" && b.name != "outputFile" && b.name != "encrypt" {
+				continue // keeps its default
+			}
 			switch b.kind {
 			case "string":
 				v := mkStrT(TVar("flag."+b.name, SStr))
@@ -161,7 +165,9 @@ func registerCLI(e *Engine) {
 		}
 		// positional arguments: cobra enforces the Args validator before Run
 		nargs := 0
-		if want == "redact" {
+		if want == "redact" && fix {
+			nargs = 1
+		} else if want == "redact" {
 			nargs = m.choose(2, nil)
 		} else if want == "decrypt" {
 			nargs = 1
